@@ -88,6 +88,21 @@ theorem allelic_sum_after_purity_rescale (cfg : CallCfg) (m : Method) (thr : Lis
 /-- the rescaled frequency really leaves [0, 1] for inputs inside it (so the clip is not redundant) -/
 theorem rescaled_baf_can_exceed_one : callRescaleBaf (3/5) (9/10) = 7/6 := by decide +kernel
 
+/-- on the purity path (`--purity p`, 0 < p < 1) the threshold scan reads the log2 the rescaling just wrote: in
+    ratio space, the rescaled ratio ρ against the thresholds' antilogs -- so `threshold_counts` and
+    `above_last_is_ceil` apply to it verbatim with `v = t = ρ` -/
+theorem threshold_scan_reads_rescaled_ratio (cfg : CallCfg) (p : Rat) (hp : purityActive cfg.purity = some p)
+    (thr : List Rat) (first : String) (hasBaf : Bool) (row : SegRow) :
+    let cls := classOf first cfg.par row.chrom row.s row.e
+    let ρ := rescaledRatio cfg.ploidy cfg.hapX cls
+      (absoluteOf (refExpect cfg.ploidy cfg.hapX cfg.female cls).1 (refExpect cfg.ploidy cfg.hapX cfg.female cls).2
+        cfg.purity row.t) Generated.MIN_ABS_VAL
+    (callRow cfg .threshold thr first hasBaf row).cn =
+      some (thresholdCall cfg.thrPow2 cfg.ploidy (refCopiesPure row.chrom cfg.ploidy cfg.hapX) (some ρ) ρ) ∧
+    (callRow cfg .threshold thr first hasBaf row).ratio = some ρ := by
+  simp only [callRow, hp]
+  exact ⟨trivial, trivial⟩
+
 /-! non-vacuity -/
 example : thresholdCall Generated.DEFAULT_THRESHOLDS 2 1 (some (1/10)) 1 = 1 := by decide +kernel
 example : allelic 3 3 (some (3/4)) = (some 2, some 1) := by decide +kernel
